@@ -1,4 +1,5 @@
 import HdVerif.Model.SRItems
+import HdVerif.Generated.T13k
 /-! Helper lemmas for C13. -/
 namespace HdVerif.SRItemsLemmas
 open HdVerif HdVerif.SRItems
@@ -721,5 +722,256 @@ theorem classifyAs_of_classify {attrs attrs' : Attrs} {cls : Cls} (h : classify 
             cases h
             exact hc
   · cases h
+
+/-! ## keyword tables regenerated from the constructors and the accessors (`T13k`) -/
+
+/-- top-level keywords (with "always written") the regenerated tables give for a class, base class included -/
+def topWrites (cls : Cls) : List (String × Bool) :=
+  (Gen.srCtorWritesTop.filter (fun r => r.1 == "ContentItem" || r.1 == cls.pyName)).map (fun r => (r.2.1, r.2.2))
+
+/-- the keys of an item agree with the regenerated constructor table: every always-written keyword is there,
+and nothing is there that the constructor of that class does not write -/
+def writesOkB (cls : Cls) (keys : List String) : Bool :=
+  (topWrites cls).all (fun r => !r.2 || keys.contains r.1) && keys.all (fun k => (topWrites cls).any (fun r => r.1 == k))
+
+def keysOf (it : Item) : List String := it.attrs.map (·.1)
+
+/-- every attribute `_assert_value_type` requires of a value type is written by the constructor of the class the
+value type dispatches to, on every path (both tables regenerated) -/
+theorem required_subset_written :
+    Gen.srRequiredAttrs.all (fun r =>
+      match Gen.srDispatch.lookup r.1 with
+      | none => false
+      | some c => r.2.all (fun k => Gen.srCtorWritesTop.any (fun w => w.1 == c && w.2.1 == k && w.2.2))) = true := by
+  decide
+
+/-- every attribute an accessor reads is one the constructor of its class (or `ContentItem.__init__`) writes -/
+theorem reads_subset_writes :
+    Gen.srAccessorReads.all (fun a =>
+      a.2.2.all (fun k =>
+        Gen.srCtorWritesTop.any (fun w => (w.1 == a.1 || w.1 == "ContentItem") && w.2.1 == k) ||
+        Gen.srCtorWritesNested.any (fun w => w.1 == a.1 && w.2.2.1 == k))) = true := by
+  decide
+
+theorem keys_shape (cls : Cls) (vt : String) (name : Coded) (rel : Option String) (extra : Attrs) :
+    keysOf (.mk cls ([("ValueType", .str vt), ("ConceptNameCodeSequence", .code name)] ++ relPart rel ++ extra) none)
+      = ["ValueType", "ConceptNameCodeSequence"] ++ (match rel with | none => [] | some _ => ["RelationshipType"]) ++ extra.map (·.1) := by
+  cases rel <;> simp [keysOf, Item.attrs, relPart]
+
+
+macro "keys_decide" : tactic =>
+  `(tactic| (simp only [List.map, List.cons_append, List.nil_append, List.append_nil, List.append_assoc, optAttr, tcoordAttrs, Item.cls]; decide))
+
+theorem writes_withAttrs {cls : Cls} {vtName vt : String} {req : List String} (T : TableOk cls vtName vt req) (name : Coded)
+    (rel : Option String) (extra : Attrs) (it : Item) (h : withAttrs cls name rel extra = .ok it)
+    (hk : ∀ r : Option String, writesOkB cls (["ValueType", "ConceptNameCodeSequence"] ++
+      (match r with | none => [] | some _ => ["RelationshipType"]) ++ extra.map (·.1)) = true) :
+    it.cls = cls ∧ writesOkB cls (keysOf it) = true := by
+  rw [withAttrs_shape T name rel extra it h, keys_shape]
+  exact ⟨rfl, hk rel⟩
+
+theorem Built.writes {it : Item} (h : Built it) : writesOkB it.cls (keysOf it) = true := by
+  induction h with
+  | code name value rel it h =>
+    obtain ⟨e, k⟩ := writes_withAttrs tableOk_code name rel _ it h (by intro r; cases r <;> keys_decide); rw [e]; exact k
+  | text name v rel it h =>
+    obtain ⟨e, k⟩ := writes_withAttrs tableOk_text name rel _ it h (by intro r; cases r <;> keys_decide); rw [e]; exact k
+  | pname name v rel it h =>
+    obtain ⟨e, k⟩ := writes_withAttrs tableOk_pname name rel _ it h (by intro r; cases r <;> keys_decide); rw [e]; exact k
+  | date name v rel it h =>
+    obtain ⟨e, k⟩ := writes_withAttrs tableOk_date name rel _ it h (by intro r; cases r <;> keys_decide); rw [e]; exact k
+  | time name v rel it h =>
+    obtain ⟨e, k⟩ := writes_withAttrs tableOk_time name rel _ it h (by intro r; cases r <;> keys_decide); rw [e]; exact k
+  | datetime name v rel it h =>
+    obtain ⟨e, k⟩ := writes_withAttrs tableOk_datetime name rel _ it h (by intro r; cases r <;> keys_decide); rw [e]; exact k
+  | uidref name v rel it h =>
+    obtain ⟨e, k⟩ := writes_withAttrs tableOk_uidref name rel _ it h (by intro r; cases r <;> keys_decide); rw [e]; exact k
+  | num ds name v f unit q rel it h =>
+    obtain ⟨e, k⟩ := writes_withAttrs tableOk_num name rel _ it h (by intro r; cases r <;> cases q <;> keys_decide); rw [e]; exact k
+  | container name c t rel it h =>
+    obtain ⟨e, k⟩ := writes_withAttrs tableOk_container name rel _ it h (by intro r; cases r <;> cases t <;> keys_decide); rw [e]; exact k
+  | composite name c i rel it h =>
+    obtain ⟨e, k⟩ := writes_withAttrs tableOk_composite name rel _ it h (by intro r; cases r <;> keys_decide); rw [e]; exact k
+  | image name c i f s rel it h =>
+    obtain ⟨e, k⟩ := writes_withAttrs tableOk_image name rel _ it h (by intro r; cases r <;> keys_decide); rw [e]; exact k
+  | waveform name c i ch rel it h =>
+    obtain ⟨e, k⟩ := writes_withAttrs tableOk_waveform name rel _ it h (by intro r; cases r <;> keys_decide); rw [e]; exact k
+  | scoord name gt p o f rel it h =>
+    obtain ⟨g, _, _, _, e⟩ := mkScoord_ok_iff name gt p o f rel it h
+    rw [e, keys_shape]
+    cases rel <;> cases o <;> cases f <;> keys_decide
+  | scoord3d name gt p fo f rel it h =>
+    obtain ⟨g, _, _, e⟩ := mkScoord3d_ok_iff name gt p fo f rel it h
+    rw [e, keys_shape]
+    cases rel <;> cases f <;> keys_decide
+  | tcoord ds name rt arg rel it h =>
+    obtain ⟨_, t, _, e⟩ := mkTcoord_ok_iff ds name rt arg rel it h
+    rw [e, keys_shape]
+    cases rel <;> cases t <;> keys_decide
+  | content it cs it' _ _ h ih _ =>
+    obtain ⟨e, _⟩ := setContent_ok h
+    rw [e]
+    cases it with
+    | mk c a k => exact ih
+
+/-- the attributes of the item itself that the regenerated table says a property reads -/
+def readKeys (c p : String) : List String :=
+  match Gen.srAccessorReads.find? (fun a => a.1 == c && a.2.1 == p) with
+  | none => []
+  | some a => a.2.2.filter (fun k => Gen.srCtorWritesTop.any (fun w => (w.1 == c || w.1 == "ContentItem") && w.2.1 == k))
+
+/-- … and the attributes of the single item of a sequence attribute -/
+def nestedReadKeys (c p : String) : List String :=
+  match Gen.srAccessorReads.find? (fun a => a.1 == c && a.2.1 == p) with
+  | none => []
+  | some a => a.2.2.filter (fun k => Gen.srCtorWritesNested.any (fun w => w.1 == c && w.2.2.1 == k))
+
+def SameOn (keys : List String) (it it' : Item) : Prop := ∀ k ∈ keys, it.attrs.lookup k = it'.attrs.lookup k
+
+/-- every model accessor is a function of exactly the attributes its source property reads -/
+theorem accessors_read_regenerated_keys (it it' : Item) :
+    (SameOn (readKeys "ContentItem" "name") it it' → nameOf it = nameOf it') ∧
+    (SameOn (readKeys "ContentItem" "relationship_type") it it' → relOf it = relOf it') ∧
+    (SameOn (readKeys "CodeContentItem" "value") it it' → codeValue it = codeValue it') ∧
+    (SameOn (readKeys "TextContentItem" "value") it it' → strValue "TextValue" it = strValue "TextValue" it') ∧
+    (SameOn (readKeys "PnameContentItem" "value") it it' → strValue "PersonName" it = strValue "PersonName" it') ∧
+    (SameOn (readKeys "DateContentItem" "value") it it' → strValue "Date" it = strValue "Date" it') ∧
+    (SameOn (readKeys "TimeContentItem" "value") it it' → strValue "Time" it = strValue "Time" it') ∧
+    (SameOn (readKeys "DateTimeContentItem" "value") it it' → strValue "DateTime" it = strValue "DateTime" it') ∧
+    (SameOn (readKeys "UIDRefContentItem" "value") it it' → strValue "UID" it = strValue "UID" it') ∧
+    (SameOn (readKeys "NumContentItem" "value") it it' → numValue it = numValue it') ∧
+    (SameOn (readKeys "NumContentItem" "unit") it it' → numUnit it = numUnit it') ∧
+    (SameOn (readKeys "NumContentItem" "qualifier") it it' → numQualifier it = numQualifier it') ∧
+    (SameOn (readKeys "ContainerContentItem" "template_id") it it' → containerTemplate it = containerTemplate it') ∧
+    (SameOn (readKeys "CompositeContentItem" "value") it it' → refValue it = refValue it') ∧
+    (SameOn (readKeys "ImageContentItem" "value") it it' → refValue it = refValue it') ∧
+    (SameOn (readKeys "WaveformContentItem" "value") it it' → refValue it = refValue it') ∧
+    (SameOn (readKeys "ImageContentItem" "referenced_frame_numbers") it it' → imageFrames it = imageFrames it') ∧
+    (SameOn (readKeys "ImageContentItem" "referenced_segment_numbers") it it' → imageSegments it = imageSegments it') ∧
+    (SameOn (readKeys "WaveformContentItem" "referenced_waveform_channels") it it' → waveformChannels it = waveformChannels it') ∧
+    (SameOn (readKeys "ScoordContentItem" "value") it it' → scoordValue it = scoordValue it') ∧
+    (SameOn (readKeys "ScoordContentItem" "graphic_type") it it' → strValue "GraphicType" it = strValue "GraphicType" it') ∧
+    (SameOn (readKeys "Scoord3DContentItem" "value") it it' → scoord3dValue it = scoord3dValue it') ∧
+    (SameOn (readKeys "Scoord3DContentItem" "graphic_type") it it' → strValue "GraphicType" it = strValue "GraphicType" it') ∧
+    (SameOn (readKeys "Scoord3DContentItem" "frame_of_reference_uid") it it' →
+      strValue "ReferencedFrameOfReferenceUID" it = strValue "ReferencedFrameOfReferenceUID" it') ∧
+    (SameOn (readKeys "TcoordContentItem" "value") it it' → tcoordValue it = tcoordValue it') ∧
+    (SameOn (readKeys "TcoordContentItem" "temporal_range_type") it it' →
+      strValue "TemporalRangeType" it = strValue "TemporalRangeType" it') := by
+  refine ⟨?_, ?_, ?_, ?_, ?_, ?_, ?_, ?_, ?_, ?_, ?_, ?_, ?_, ?_, ?_, ?_, ?_, ?_, ?_, ?_, ?_, ?_, ?_, ?_, ?_, ?_⟩ <;> intro h
+  · have := h "ConceptNameCodeSequence" (by decide); unfold nameOf; rw [this]
+  · have := h "RelationshipType" (by decide); unfold relOf; rw [this]
+  · have := h "ConceptCodeSequence" (by decide); unfold codeValue; rw [this]
+  · have := h "TextValue" (by decide); unfold strValue; rw [this]
+  · have := h "PersonName" (by decide); unfold strValue; rw [this]
+  · have := h "Date" (by decide); unfold strValue; rw [this]
+  · have := h "Time" (by decide); unfold strValue; rw [this]
+  · have := h "DateTime" (by decide); unfold strValue; rw [this]
+  · have := h "UID" (by decide); unfold strValue; rw [this]
+  · have := h "MeasuredValueSequence" (by decide); unfold numValue; rw [this]
+  · have := h "MeasuredValueSequence" (by decide); unfold numUnit; rw [this]
+  · have := h "NumericValueQualifierCodeSequence" (by decide); unfold numQualifier; rw [this]
+  · have := h "ContentTemplateSequence" (by decide); unfold containerTemplate; rw [this]
+  · have := h "ReferencedSOPSequence" (by decide); unfold refValue; rw [this]
+  · have := h "ReferencedSOPSequence" (by decide); unfold refValue; rw [this]
+  · have := h "ReferencedSOPSequence" (by decide); unfold refValue; rw [this]
+  · have := h "ReferencedSOPSequence" (by decide); unfold imageFrames; rw [this]
+  · have := h "ReferencedSOPSequence" (by decide); unfold imageSegments; rw [this]
+  · have := h "ReferencedSOPSequence" (by decide); unfold waveformChannels; rw [this]
+  · have := h "GraphicData" (by decide); unfold scoordValue graphicData; rw [this]
+  · have := h "GraphicType" (by decide); unfold strValue; rw [this]
+  · have := h "GraphicData" (by decide); unfold scoord3dValue graphicData; rw [this]
+  · have := h "GraphicType" (by decide); unfold strValue; rw [this]
+  · have := h "ReferencedFrameOfReferenceUID" (by decide); unfold strValue; rw [this]
+  · have h1 := h "ReferencedSamplePositions" (by decide)
+    have h2 := h "ReferencedTimeOffsets" (by decide)
+    have h3 := h "ReferencedDateTime" (by decide)
+    unfold tcoordValue; rw [h1, h2, h3]
+  · have := h "TemporalRangeType" (by decide); unfold strValue; rw [this]
+
+/-- the fields of the structured one-item sequences the accessors look at (`AVal.measured num fp unit`,
+`AVal.template _ id`, `AVal.sop cls inst frames segments channels`) are the nested keywords the source reads -/
+theorem nested_reads_fingerprint :
+    nestedReadKeys "NumContentItem" "value" = ["FloatingPointValue", "NumericValue"] ∧
+    nestedReadKeys "NumContentItem" "unit" = ["MeasurementUnitsCodeSequence"] ∧
+    nestedReadKeys "ContainerContentItem" "template_id" = ["TemplateIdentifier"] ∧
+    nestedReadKeys "CompositeContentItem" "value" = ["ReferencedSOPClassUID", "ReferencedSOPInstanceUID"] ∧
+    nestedReadKeys "ImageContentItem" "value" = ["ReferencedSOPClassUID", "ReferencedSOPInstanceUID"] ∧
+    nestedReadKeys "WaveformContentItem" "value" = ["ReferencedSOPClassUID", "ReferencedSOPInstanceUID"] ∧
+    nestedReadKeys "ImageContentItem" "referenced_frame_numbers" = ["ReferencedFrameNumber"] ∧
+    nestedReadKeys "ImageContentItem" "referenced_segment_numbers" = ["ReferencedSegmentNumber"] ∧
+    nestedReadKeys "WaveformContentItem" "referenced_waveform_channels" = ["ReferencedWaveformChannels"] := by
+  decide
+
+/-- … and the nested keywords the constructors write are the fields those structured values have -/
+theorem nested_writes_fingerprint :
+    Gen.srCtorWritesNested =
+      [("NumContentItem", "MeasuredValueSequence", "NumericValue", true),
+       ("NumContentItem", "MeasuredValueSequence", "FloatingPointValue", false),
+       ("NumContentItem", "MeasuredValueSequence", "MeasurementUnitsCodeSequence", true),
+       ("ContainerContentItem", "ContentTemplateSequence", "MappingResource", false),
+       ("ContainerContentItem", "ContentTemplateSequence", "TemplateIdentifier", false),
+       ("CompositeContentItem", "ReferencedSOPSequence", "ReferencedSOPClassUID", true),
+       ("CompositeContentItem", "ReferencedSOPSequence", "ReferencedSOPInstanceUID", true),
+       ("ImageContentItem", "ReferencedSOPSequence", "ReferencedSOPClassUID", true),
+       ("ImageContentItem", "ReferencedSOPSequence", "ReferencedSOPInstanceUID", true),
+       ("ImageContentItem", "ReferencedSOPSequence", "ReferencedFrameNumber", false),
+       ("ImageContentItem", "ReferencedSOPSequence", "ReferencedSegmentNumber", false),
+       ("WaveformContentItem", "ReferencedSOPSequence", "ReferencedSOPClassUID", true),
+       ("WaveformContentItem", "ReferencedSOPSequence", "ReferencedSOPInstanceUID", true),
+       ("WaveformContentItem", "ReferencedSOPSequence", "ReferencedWaveformChannels", false)] := by
+  decide
+
+theorem has_iff_mem_keys (k : String) (a : Attrs) : has k a = true ↔ k ∈ a.map (·.1) := by
+  unfold has
+  induction a with
+  | nil => simp [List.lookup]
+  | cons p r ih =>
+    obtain ⟨k', v⟩ := p
+    simp only [List.lookup, List.map_cons, List.mem_cons]
+    by_cases h : k = k'
+    · subst h; simp
+    · have : (k == k') = false := by simpa using h
+      simp [this, ih, h]
+
+theorem mem_of_lookup {β} (k : String) (v : β) (l : List (String × β)) (h : l.lookup k = some v) : (k, v) ∈ l := by
+  induction l with
+  | nil => simp [List.lookup] at h
+  | cons p r ih =>
+    obtain ⟨k', v'⟩ := p
+    simp only [List.lookup] at h
+    by_cases e : k = k'
+    · subst e; simp at h; subst h; simp
+    · have : (k == k') = false := by simpa using e
+      simp only [this] at h
+      exact List.mem_cons_of_mem _ (ih h)
+
+/-- the premise of the round trip, derived from the regenerated tables alone: the attributes
+`_assert_value_type` demands of the item's value type are among those its constructor always writes, and a
+built item carries all of those -/
+theorem required_present_of_tables {it : Item} (h : Built it) {vtName vt : String} {req : List String}
+    (T : TableOk it.cls vtName vt req) : ∀ k ∈ req, has k it.attrs = true := by
+  intro k hk
+  have hw := h.writes
+  unfold writesOkB at hw
+  simp only [Bool.and_eq_true] at hw
+  have hall := List.all_eq_true.mp hw.1
+  have hreq := List.all_eq_true.mp required_subset_written (vtName, req) (by
+    exact mem_of_lookup _ _ _ T.required)
+  simp only [T.dispatch] at hreq
+  have hk' := List.all_eq_true.mp hreq k hk
+  obtain ⟨w, hwm, hwc⟩ := List.any_eq_true.mp hk'
+  simp only [Bool.and_eq_true, beq_iff_eq] at hwc
+  have hrow : (k, true) ∈ topWrites it.cls := by
+    unfold topWrites
+    refine List.mem_map.mpr ⟨w, List.mem_filter.mpr ⟨hwm, ?_⟩, ?_⟩
+    · simp [hwc.1.1]
+    · obtain ⟨w1, w2, w3⟩ := w
+      simp only at hwc
+      simp [hwc.1.2, hwc.2]
+  have := hall (k, true) hrow
+  simp only [Bool.not_true, Bool.false_or] at this
+  rw [has_iff_mem_keys]
+  simpa [keysOf] using this
 
 end HdVerif.SRItemsLemmas
